@@ -358,7 +358,11 @@ def rule_d(ctx):
                         len_read = (r, t)
                     if r is not None and r.kind == 'bytes' and e.func is par and content is None:
                         content = r
-            offs = [e for e in p.events if e.kind == 'store' and e.data['target'] == ('local', 'offset') and
+            wl = [n_ for n_ in walk_local(par.node) if isinstance(n_, ast.While)]
+            cursor = None
+            if wl and isinstance(wl[0].test, ast.Compare) and isinstance(wl[0].test.left, ast.Name):
+                cursor = wl[0].test.left.id
+            offs = [e for e in p.events if e.kind == 'store' and e.data['target'] == ('local', cursor) and
                     e.func is par and e.seq < back[0].seq]
             if hdr_pos is None or len_read is None or content is None or not offs:
                 ok, detail = False, 'an iteration does not read header, 24-bit length and content from the buffer'
@@ -424,9 +428,9 @@ def rule_e(ctx):
         tp = c.methods.get('type') if isinstance(c, ClassInfo) else None
         wired = None
         if tp is not None:
-            for n in walk_local(tp.node):
-                if isinstance(n, ast.Return) and n.value is not None:
-                    wired = ast.unparse(n.value)
+            from ..astutil import returned_exprs
+            for v in returned_exprs(tp.node):
+                wired = ast.unparse(v)
         ok = wired == key
         rep.add('C18.e', 'authentication registry / %s' % getattr(c, 'name', '?'), c if isinstance(c, ClassInfo) else am,
                 ok, 'registered under the type name it announces' if ok else
@@ -598,11 +602,17 @@ def rule_f(ctx):
     ac = ctx.repo.cls('rsocket.extensions.authentication_content:AuthenticationContent')
     q = ac.lookup('parse')
     ok = False
+    consumed = None
+    for n in walk_local(q.node):
+        if isinstance(n, ast.Assign) and isinstance(n.targets[0], ast.Tuple) and len(n.targets[0].elts) == 2 and \
+                isinstance(n.value, ast.Call) and 'parse_well_known_encoding' in ast.unparse(n.value.func) and \
+                isinstance(n.targets[0].elts[1], ast.Name):
+            consumed = n.targets[0].elts[1].id
     for n in walk_local(q.node):
         if isinstance(n, ast.Call) and isinstance(n.func, ast.Attribute) and n.func.attr == 'parse' and n.args:
             a = n.args[0]
             if isinstance(a, ast.Subscript) and isinstance(a.slice, ast.Slice) and a.slice.upper is None and \
-                    a.slice.lower is not None and ast.unparse(a.slice.lower) == 'offset':
+                    isinstance(a.slice.lower, ast.Name) and a.slice.lower.id == consumed and consumed is not None:
                 ok = True
     rep.add('C18.f', 'AuthenticationContent.parse / payload read from where the type header ended', q, ok,
             'the authentication bytes start at the offset reported by the type header parser' if ok else
